@@ -271,14 +271,8 @@ fn spec() -> DumpSpec {
 
 pub fn c04(tier: Tier) -> i32 {
     let rep = Report::new("C04", tier);
-    rep.rule("all enabled histories over the storage alphabet (writes + Compact/CloseOpen/DropOpen/CreateIndex) up to the stated depth, node ids in canonical order; after each history: dump, then drop+open (1st execution) and close+open (2nd execution), dump again; non-trivial = history with at least one write");
-    let nodes = vec![1u64, 2];
-    let mut alphabet = sigma_write(&nodes, tier == Tier::Thorough);
-    alphabet.extend(sigma_maint());
-    alphabet.push(Op::CreateIndex { l: "A", k: "k" });
-    alphabet.push(Op::CreateNodes { base: 1000, n: 513 });
-    let ex = Explorer { rep: &rep, alphabet, node_ids: nodes, max_depth: tier.pick(3, 4), wall_cap_s: tier.pick(45.0, 1500.0), prune_violating: true };
-    ex.run(&|h: &[Op]| {
+    rep.rule("all enabled histories over the storage alphabet (writes + Compact/CloseOpen/DropOpen/CreateIndex) up to the stated depth, node ids in canonical order, once on external ids {1, 2} and (one level shallower) on {0, 2}; after each history: dump, then drop+open (1st execution) and close+open (2nd execution), dump again; non-trivial = history with at least one write");
+    let check = |h: &[Op]| {
         let mut out = Outcome { violations: vec![], runs: 0, steps: 0, label: String::new(), nontrivial: h.iter().any(|o| !o.is_maintenance()) };
         let mut labels = Vec::new();
         for reopen in [Op::DropOpen, Op::CloseOpen] {
@@ -318,7 +312,16 @@ pub fn c04(tier: Tier) -> i32 {
         }
         out.label = labels.join("|");
         out
-    });
+    };
+    // external id 0 is a legal id that the read path treats specially: a shallower family on node ids {0, 2} first
+    for (nodes, depth) in [(vec![0u64, 2], tier.pick(2, 3)), (vec![1u64, 2], tier.pick(3, 4))] {
+        let mut alphabet = sigma_write(&nodes, tier == Tier::Thorough);
+        alphabet.extend(sigma_maint());
+        alphabet.push(Op::CreateIndex { l: "A", k: "k" });
+        alphabet.push(Op::CreateNodes { base: 1000, n: 513 });
+        let ex = Explorer { rep: &rep, alphabet, node_ids: nodes, max_depth: depth, wall_cap_s: tier.pick(45.0, 1500.0), prune_violating: true };
+        ex.run(&check);
+    }
     rep.assume("the dump reads every storage read interface named by the property (nodes, labels, single/whole-map properties, both traversal directions typed and untyped, relationship properties, tombstone flags)");
     rep.finish()
 }
